@@ -149,6 +149,19 @@ pub fn generate_c09(seed: u64) -> W4Scn {
     // "different seeds differ" only where activity is guaranteed: a random group that acts every step
     let guaranteed = agents.iter().any(|a| matches!(a, AgentSpec::Random { n, activity, tick_lo, tick_hi, .. } if *n >= 4 && *activity >= 0.9 && tick_hi - tick_lo >= 10)) && cfg.n_steps >= 5;
     cfg.seeds_differ = guaranteed && r.chance(0.3);
+    // seed-domain boundary runs: the seed is one of the corner values of the u64 domain (0, the top of the range, the
+    // 32-bit and sign boundaries) and a group with guaranteed activity is present, so that the neighbouring seeds
+    // (s-1, s+1, wrapping) must give a different run
+    let mut agents = agents;
+    if r.chance(0.15) {
+        cfg.seed = *r.pick(&[0u64, 0, 1, 2, u64::MAX, u64::MAX, u64::MAX - 1, u64::MAX - 1, (1 << 32) - 1, 1 << 32, (1 << 63) - 1, 1 << 63, u64::MAX - (1 << 32)]);
+        if !guaranteed {
+            let asset = r.usize(cfg.assets);
+            agents.push(AgentSpec::Random { asset, n: 6, tick_lo: cfg.centre.saturating_sub(20).max(1), tick_hi: cfg.centre + 20, vol_lo: 1, vol_hi: 60, activity: 1.0 });
+            cfg.n_steps = cfg.n_steps.max(5);
+        }
+        cfg.seeds_differ = true;
+    }
     W4Scn { cfg, agents, initial, inject: vec![] }
 }
 
